@@ -135,12 +135,8 @@ func docTerm(meta string, ascii bool, reportMissing func(output, path string)) (
 		var imps []string
 		if im := v.get("imports"); im != nil {
 			for _, it := range im.items {
-				orig := ""
-				if o := it.get("original"); o != nil {
-					orig = o.str
-				}
 				imps = append(imps, fmt.Sprintf("mkIImp %s %s %s %s %s", CBytes([]byte(it.get("path").str)), CBytes([]byte(it.get("kind").str)),
-					CBool(it.get("external") != nil), CBytes([]byte(orig)), cWith(it.get("with"))))
+					CBool(it.get("external") != nil), cOptBytes(it.get("original")), cWith(it.get("with"))))
 			}
 		}
 		inTerms = append(inTerms, fmt.Sprintf("mkInput %s %d [%s] %s %s", CBytes([]byte(k)), int(v.get("bytes").num), strings.Join(imps, ";"),
@@ -248,13 +244,14 @@ func oddNameBuilds(st *Stats) {
 	names := []string{"sp ace.js", "uni-\u00e9.js", "\u65e5\u672c.js", "emoji-\U0001F600.js", "quo\"te.js", "tab\there.js", "ctl\x01x.js", "line\u2028sep.js", "bom\ufeffx.js", "apos'x.js", "del\x7fx.js"}
 	for _, cs := range []bool{false, true} {
 		for variant := 0; variant < 3; variant++ {
-			files := map[string]string{"plain.js": "export let p = 1; console.log('plain')\n", "dyn.js": "export let d = 2; console.log('dyn')\n", "pic \u00e9.png": "PNG"}
+			files := map[string]string{"plain.js": "export let p = 1; console.log('plain')\n", "dyn.js": "export let d = 2; console.log('dyn')\n", "pic \u00e9.png": "PNG",
+				"dy\"n\tq\u00e9.js": "export let e = 3; console.log('dyn2')\n", "pi\"c.png": "PNG2"}
 			var main strings.Builder
 			for i, nm := range names {
 				files[nm] = fmt.Sprintf("import {p} from './plain.js'; export let v%d = p + %d; console.log(%q)\n", i, i, nm)
 				fmt.Fprintf(&main, "import {v%d} from %q; console.log(v%d);\n", i, "./"+nm, i)
 			}
-			main.WriteString("import 'ext-\u00e9\"q\\\\z'; import pic from './pic \u00e9.png'; console.log(pic); import('./dyn.js').then(x => console.log(x));\n")
+			main.WriteString("import 'ext-\u00e9\"q\\\\z'; import pic from './pic \u00e9.png'; console.log(pic); import('./dyn.js').then(x => console.log(x)); import('./dy\"n\\tq\u00e9.js').then(x => console.log(x)); import pic2 from './pi\"c.png'; console.log(pic2);\n")
 			files["main.js"] = main.String()
 			entries := []string{"main.js"}
 			if variant >= 1 {
@@ -331,15 +328,32 @@ func genCases(r *Rng, n int, cf *CoqFile, st *Stats) {
 // ---- replays of the findings about file names
 
 func corpusNames(st *Stats) {
-	// J: the final path of a chunk is substituted for its unique key inside a JSON string (and a JS string) as it is
+	// J (fixed by b608b91, must pass): the final path of a chunk is escaped when it is substituted for its
+	// unique key inside a JSON string and a JS string
 	{
 		files := map[string]string{"a.js": "import(\"./d\\\"q.js\").then(x => console.log(x))\n", "d\"q.js": "export let v = 1\n"}
 		res, _ := namedBuild(st, "corpus-J", files, []string{"a.js"}, false, true, nil)
 		if len(res.Errors) == 0 {
-			_, _, err := parseJSON(res.Metafile)
-			st.Note("corpus", "quote-in-chunk-name", err != nil)
+			in := map[string]interface{}{"scenario": "final-path-with-quotation-mark-substituted-raw-into-json-string", "label": "corpus", "files": files}
+			root, _, err := parseJSON(res.Metafile)
+			st.Note("corpus", "quote-in-chunk-name", true)
 			if err != nil {
-				st.Fail("metafile-is-not-json", map[string]interface{}{"scenario": "final-path-with-quotation-mark-substituted-raw-into-json-string", "label": "corpus", "files": files}, err.Error(), "valid JSON")
+				st.Fail("metafile-is-not-json", in, err.Error(), "valid JSON")
+			} else {
+				a := root.get("outputs").get("out/a.js")
+				ok := false
+				if a != nil && a.get("imports") != nil && len(a.get("imports").items) == 1 {
+					p := a.get("imports").items[0].get("path").str
+					ok = strings.HasPrefix(p, "out/c/d\"q-") && root.get("outputs").get(p) != nil
+				}
+				if !ok {
+					st.Fail("metafile-output-import-is-not-an-output", in, res.Metafile, "outputs[out/a.js].imports[0].path is the key of the chunk d\"q-HASH.js")
+				}
+			}
+			for _, f := range res.OutputFiles {
+				if strings.HasSuffix(f.Path, "/a.js") && !strings.Contains(string(f.Contents), "import(\"./c/d\\\"q-") {
+					st.Fail("emitted-import-path-not-escaped", in, string(f.Contents), "import(\"./c/d\\\"q-HASH.js\")")
+				}
 			}
 		}
 	}
@@ -368,14 +382,17 @@ func corpusNames(st *Stats) {
 			}
 		}
 	}
-	// L: charset=utf8 copies an invalid byte of a file name into the metafile
+	// L (fixed by 6fea80b, must pass): charset=utf8 writes an invalid byte of a file name as an escaped U+FFFD
 	{
 		files := map[string]string{"a\xffb.js": "console.log(1)\n"}
 		res, _ := namedBuild(st, "corpus-L", files, []string{"a\xffb.js"}, true, false, nil)
 		if len(res.Errors) == 0 {
-			st.Note("corpus", "invalid-utf8-file-name", !utf8.ValidString(res.Metafile))
+			st.Note("corpus", "invalid-utf8-file-name", true)
+			in := map[string]interface{}{"scenario": "invalid-byte-of-file-name-copied-with-charset-utf8", "label": "corpus", "file": "a\\xffb.js"}
 			if !utf8.ValidString(res.Metafile) {
-				st.Fail("metafile-is-not-utf8", map[string]interface{}{"scenario": "invalid-byte-of-file-name-copied-with-charset-utf8", "label": "corpus", "file": "a\\xffb.js"}, "metafile contains the byte 0xFF", "UTF-8 (RFC 8259 section 8.1)")
+				st.Fail("metafile-is-not-utf8", in, "metafile contains the byte 0xFF", "UTF-8 (RFC 8259 section 8.1)")
+			} else if root, _, err := parseJSON(res.Metafile); err != nil || root.get("inputs").get("a\ufffdb.js") == nil {
+				st.Fail("metafile-input-key-wrong", in, res.Metafile, "inputs has the key a<U+FFFD>b.js")
 			}
 		}
 	}
